@@ -49,9 +49,12 @@ class Segment(object):
 
     @property
     def key(self):
-        if self.l2 is None:
-            return self.l1
-        return f"{self.l1}-{self.l2}"
+        """Identity of the node or edge: the pair of node labels.
+
+        Unlike :attr:`label`, which joins the labels in a string for display, the key cannot be the same for
+        two different edges (e.g. "a"->"b-c" and "a-b"->"c").
+        """
+        return self.l1, self.l2
 
     @property
     def pi(self):
